@@ -31,11 +31,6 @@ pub fn corpus(kind: MatchKind) -> Vec<Case> {
     for variant in [Variant::Bytewise, Variant::Charwise] {
         v.push(mk(variant, &["ab", "a", "abcd"], &["abcd", "abcabcd", "xaab"]));
         v.push(mk(variant, &["abcd", "bcd", "cd", "b"], &["abcx", "abcdx", "bcbcd"]));
-        v.push(mk(variant, &["ab", "abcd", "cx"], &["abcx", "abcdcx"]));
-        v.push(mk(variant, &["a", "abab"], &["abax", "ababab"]));
-        v.push(mk(variant, &["abcdez", "bc", "ex"], &["abcdex"]));
-        v.push(mk(variant, &["世界", "中", "世"], &["世界中", "ééab cd世界中世"]));
-        v.push(mk(variant, &["é", "éa", "a"], &["ééaé a", "aéa"]));
     }
     v
 }
